@@ -99,6 +99,8 @@ pub struct Op {
     pub sim_ns: i64,
     /// index of this op among the actor's mutation ops (only for mutations)
     pub mut_idx: Option<usize>,
+    /// Overwrite whose new bytes equal the old ones (e.g. the same pack produced twice): not a replacement
+    pub identical: bool,
 }
 
 impl Op {
@@ -326,6 +328,7 @@ impl SimBackend {
             fault,
             sim_ns: interpose::clock_now(),
             mut_idx,
+            identical: false,
         });
     }
 
@@ -500,6 +503,7 @@ impl WriteBackend for SimBackend {
         let key = (ft_code(tpe), kid);
         let (fault, k) = self.mutation_fault(&mut s);
         let exists = s.files.contains_key(&key);
+        let identical = s.files.get(&key).is_some_and(|old| old == &data);
         let kind = if exists { OpKind::Overwrite } else { OpKind::Write };
         let effect = matches!(fault, None | Some("fail_after_effect"));
         if effect {
@@ -510,6 +514,11 @@ impl WriteBackend for SimBackend {
             }
         }
         self.push(&mut s, kind, tpe, kid, 0, data.len() as u32, Some(data), fault.is_none(), fault, Some(k));
+        if identical {
+            if let Some(op) = s.log.last_mut() {
+                op.identical = true;
+            }
+        }
         match fault {
             None => Ok(()),
             Some(f) => Err(sim_err(f, "write_bytes")),
